@@ -14,6 +14,7 @@ GENERATORS = [
     ("GenWelford.v", "tr_welford"),
     ("GenRegex.v", "tr_regex"),
     ("GenFacts.v", "tr_facts"),
+    ("GenIdentity.v", "tr_identity"),
 ]
 
 
